@@ -64,10 +64,22 @@ func main() {
 		verbose  = flag.Bool("v", false, "print every obligation")
 		explain  = flag.String("explain", "", "print a replay file in readable form and re-run its rule")
 		dumpFunc = flag.String("dump", "", "debug: dump SSA of functions whose name contains this string")
+		anchors  = flag.Bool("anchors", false, "debug: print the program entity every role resolves to (and why a role does not resolve)")
 	)
 	flag.Parse()
 	if *explain != "" {
 		os.Exit(explainReplay(*explain, *repo, *verif))
+	}
+	if *anchors {
+		w, err := loadWorld(*repo, "quick", "")
+		if err != nil {
+			fmt.Fprintln(os.Stderr, err)
+			os.Exit(2)
+		}
+		c := &Ctx{w: w, fc: newFlowCtx(w), r: newReport("anchors")}
+		c.a = resolveAnchors(c)
+		c.a.dump(os.Stdout)
+		return
 	}
 	if *dumpFunc != "" {
 		w, err := loadWorld(*repo, "quick", "")
